@@ -3,7 +3,7 @@ C10 - MPS truncation and canonical form honour their contract.
 
 Level 1 (E1): split_matrix on EVERY singular-value multiset over a spectrum alphabet x both centre
 sides x max_error x max_rank x preserve_norm.  Level 2 (E2): every operation history up to the depth
-bound over a 18-operation alphabet on fresh real MPS objects (several initial states, qubits and
+bound over a 19-operation alphabet on fresh real MPS objects (several initial states, qubits and
 qutrits, several precision / max_bond_dim settings); bond cap, left/right orthonormality around the
 declared centre, norm == norm of the centre tensor and the truncation-error bound are evaluated on
 every live object after every transition.
